@@ -68,7 +68,7 @@ def classify_node(prog, fn, c, cand=2, depth=0):
     kinds = set()
     desc = []
     for f, o in roots:
-        if o.kind == "param" and not f.is_closure and f is fn and o.ref == cand:
+        if o.kind == "param" and not f.is_closure and f.id == fn.id and o.ref == cand:
             kinds.add("same")
         elif o.kind == "param" and f.is_closure:
             kinds.add("other")
@@ -86,7 +86,7 @@ def classify_node(prog, fn, c, cand=2, depth=0):
     # descend into a resolved workspace helper
     tg = prog.call_targets(c)
     if "same" in kinds and len(tg) == 1 and depth < 4 and not (c.callee.get("trait") or "").endswith(("::Matcher", "::MatcherExt")):
-        helper = prog.fns[tg[0]]
+        helper = prog.inlined(prog.fns[tg[0]])
         sub = submatch_calls(prog, helper)
         for c2 in sub:
             k2, d2 = classify_node(prog, helper, c2, node_arg(c) + 1, depth + 1)
@@ -164,6 +164,7 @@ def r1_r2(ctx, impls):
         if mfn is None:
             ctx.ob("R1", "Matcher for %s" % st, False, "no match_node_with_env body in facts")
             continue
+        mfn = prog.inlined(mfn)
         calls = submatch_calls(prog, mfn)
         cls = set()
         descs = []
@@ -215,12 +216,17 @@ def r1_r2(ctx, impls):
                 for c in todo:
                     if c.name in ("match_node_with_env", "match_node", "do_match"):
                         for f, o in receiver_roots(prog, c.fn, c.args[0]):
-                            if o.kind == "param" and o.ref == 1 and (f is mfn or f.root == mfn.id or f in helpers):
-                                mrecv.add(tuple(field_path(o.proj)[:1]))
+                            hid = {h.id for h in helpers}
+                            if o.kind == "param" and o.ref == 1 and (f.id == mfn.id or f.root == mfn.id or f.id in hid or f.root in hid):
                                 tg = prog.call_targets(c)
-                                if not field_path(o.proj) and len(tg) == 1 and prog.fns[tg[0]] not in helpers and not (c.callee.get("trait") or "").endswith("Matcher"):
-                                    helpers.append(prog.fns[tg[0]])
-                                    todo.extend(submatch_calls(prog, prog.fns[tg[0]]))
+                                if not field_path(o.proj) and len(tg) == 1 and not (c.callee.get("trait") or "").endswith("Matcher"):
+                                    # `self.helper(..)`: the helper (with its own exclusive helpers spliced in) decides which field is matched
+                                    if tg[0] not in hid:
+                                        hv = prog.inlined(prog.fns[tg[0]])
+                                        helpers.append(hv)
+                                        todo.extend(submatch_calls(prog, hv))
+                                    continue
+                                mrecv.add(tuple(field_path(o.proj)[:1]))
                 for c in pcalls:
                     precv = {tuple(field_path(o.proj)[:1]) for f, o in receiver_roots(prog, pk, c.args[0]) if o.kind == "param" and o.ref == 1}
                     others = [describe_origin(f, o) for f, o in receiver_roots(prog, pk, c.args[0]) if not (o.kind == "param" and o.ref == 1)]
@@ -477,6 +483,7 @@ def r5(ctx):
 def skip_site(ctx, prog, fn, key, match_names, loop_head_names=("next",)):
     """generic check of `if !set.contains(kind) {skip}`: the contains call's false arm must not reach a
     sub-match call (before the loop head), the true arm must."""
+    fn = prog.inlined(fn)
     fam = prog.family(fn)
     found = 0
     for f in fam:
@@ -486,6 +493,30 @@ def skip_site(ctx, prog, fn, key, match_names, loop_head_names=("next",)):
             arms = bool_arms(f, c)
             heads = [c2.bb for c2 in f.calls if c2.name in loop_head_names and "Iterator" in (c2.callee.get("trait") or "")]
             mcalls = [c2 for c2 in f.calls if c2.name in match_names]
+            if arms is None and f.is_closure:
+                # iterator form: `.filter(|cand| kinds.contains(kind))…find_map(|cand| matcher.match_node(cand))` — the closure's result
+                # must be the contains() result itself (or a constant true on the unrestricted arm), never its negation, and the
+                # matcher must run downstream of that filter
+                cons = closure_consumer(prog, f)
+                rets, neg = [], False
+                for bi in f.live_blocks:
+                    for st in f.blocks[bi]["s"]:
+                        if st[0] == "A" and st[1][0] == 0 and not st[1][1]:
+                            if st[2][0] == "use" and st[2][1][0] == "k":
+                                rets.append(st[2][1][1].get("v"))
+                            elif st[2][0] == "use":
+                                rets.append("contains" if any(o.kind == "call" and o.ref is c for o in f.trace_operand(st[2][1])) else "?")
+                            elif st[2][0] == "un":
+                                neg = True
+                    c0 = f.call_at(bi)
+                    if c0 is c and c.dest and c.dest[0] == 0:
+                        rets.append("contains")
+                downstream = [g for g in fam if g.is_closure and g is not f and any(c3.name in match_names for c3 in g.calls)]
+                okf = cons is not None and cons[1].name == "filter" and not neg and "contains" in rets and set(rets) <= {"contains", "true"} and bool(downstream)
+                ctx.ob("R6", key + "/polarity", okf,
+                       "filter closure keeps a candidate iff its kind is contained (or the matcher is unrestricted); the matcher runs downstream of the filter" if okf else
+                       "the kind filter closure does not return contains() positively (returns %s, negated=%s, consumer %s)" % (sorted(set(map(str, rets))), neg, cons[1].name if cons else None), where=f.loc(c.line))
+                continue
             if arms is None:
                 ctx.ob("R6", key + "/contains", False, "cannot find the branch on BitSet::contains", where=f.loc(c.line))
                 continue
@@ -507,21 +538,27 @@ def r6(ctx):
     if fan:
         n = skip_site(ctx, prog, fan, "FindAllNodes::next", {"match_node", "match_node_with_env"})
         ctx.floor("R6", "FindAllNodes skip sites", n, 1)
-        pk = [c for c in fan.calls if c.name == "potential_kinds"]
-        mn = [c for c in fan.calls if c.name in ("match_node", "match_node_with_env")]
+        ffam = prog.family(fan)
+        pk = [c for g in ffam for c in g.calls if c.name == "potential_kinds"]
+        mn = [c for g in ffam for c in g.calls if c.name in ("match_node", "match_node_with_env")]
         same = False
         if pk and mn:
-            a = {tuple(field_path(o.proj)) for f, o in receiver_roots(prog, fan, pk[0].args[0]) if o.kind == "param" and o.ref == 1}
-            b = {tuple(field_path(o.proj)) for f, o in receiver_roots(prog, fan, mn[0].args[0]) if o.kind == "param" and o.ref == 1}
+            a = {tuple(field_path(o.proj)) for f, o in receiver_roots(prog, pk[0].fn, pk[0].args[0]) if o.kind == "param" and o.ref == 1 and not f.is_closure}
+            b = {tuple(field_path(o.proj)) for f, o in receiver_roots(prog, mn[0].fn, mn[0].args[0]) if o.kind == "param" and o.ref == 1 and not f.is_closure}
             same = bool(a & b)
         ctx.ob("R6", "FindAllNodes::next/same matcher", same, "potential_kinds and match_node are called on the same field of self", where=fan.loc())
         # candidate tested == candidate matched
-        kid = [c for c in fan.calls if c.name == "kind_id"]
+        kid = [c for g in ffam for c in g.calls if c.name == "kind_id"]
         samec = False
         if kid and mn:
-            a = {(o.kind, o.ref if o.kind != "call" else id(o.ref)) for o in deep_roots(prog, fan, kid[0].args[0])}
-            b = {(o.kind, o.ref if o.kind != "call" else id(o.ref)) for o in deep_roots(prog, fan, mn[0].args[1])}
-            samec = bool(a & b)
+            def src(c, a):
+                # the candidate as an origin in the parent: a call result there, or the item of an iterator rooted at a field of self
+                out = set()
+                for f, o in receiver_roots(prog, c.fn, a, TRANSPARENT | {"filter", "map", "inspect", "by_ref", "into_iter", "next"}):
+                    if not f.is_closure or o.kind != "param":
+                        out.add((o.kind, o.ref if o.kind != "call" else id(o.ref), tuple(field_path(o.proj))))
+                return out
+            samec = bool(src(kid[0], kid[0].args[0]) & src(mn[0], mn[0].args[1]))
         ctx.ob("R6", "FindAllNodes::next/same candidate", samec, "the kind tested is the kind of the candidate that is matched", where=fan.loc())
     for pat, key, names in (
         (r"^<ast_grep_core::ops::All<L, P> as ast_grep_core::matcher::Matcher<L>>::match_node_with_env$", "All guard", {"match_node_with_env"}),
@@ -540,6 +577,15 @@ def r6(ctx):
     # CombinedScan
     new = ctx.anchor("R6", r"^ast_grep_config::combined::CombinedScan::<'r, L>::new$")
     scan = ctx.anchor("R6", r"^ast_grep_config::combined::CombinedScan::<'r, L>::scan$")
+    # the two fields by their types (names may change): the rule vector and the kind -> rule-index table
+    F_RULES, F_TABLE = "rules", "kind_rule_mapping"
+    cs_adt = prog.adts.get("ast_grep_config::combined::CombinedScan")
+    if cs_adt:
+        for fd in cs_adt["variants"][0]["fields"]:
+            if re.search(r"^alloc::vec::Vec<alloc::vec::Vec<usize", fd["ty"]):
+                F_TABLE = fd["name"]
+            elif re.search(r"^alloc::vec::Vec<&.*RuleConfig<", fd["ty"]):
+                F_RULES = fd["name"]
     if new:
         pk = [c for c in new.calls if c.name == "potential_kinds"]
         en = [c for c in new.calls if c.name == "enumerate"]
@@ -576,14 +622,14 @@ def r6(ctx):
         aggs = [(f, bi, si, s) for f, bi, si, s in prog.aggregates_of(r"^ast_grep_config::combined::CombinedScan$")]
         for f, bi, si, s in aggs:
             ops = dict(zip(s[2][1]["fields"], s[2][2]))
-            r_ok = f is new and any(o.kind == "param" and o.ref == 1 for o in deep_roots(prog, f, ops["rules"]))
+            r_ok = f is new and any(o.kind == "param" and o.ref == 1 for o in deep_roots(prog, f, ops[F_RULES]))
             ctx.ob("R6", "CombinedScan constructed in %s" % f.id, r_ok, "CombinedScan.rules is the (sorted) vector that was indexed", where=f.loc(s[3]))
-        for field in ("rules", "kind_rule_mapping"):
+        for field in (F_RULES, F_TABLE):
             for f, bi, kind, line in prog.field_writes(r"^ast_grep_config::combined::CombinedScan$", field):
                 ctx.ob("R6", "CombinedScan.%s %s in %s" % (field, kind, f.id), False, "index/rule vector written after construction", where=f.loc(line))
     if scan:
         fam = prog.family(scan)
-        gets = [c for c in scan.calls if c.name == "get" and any(o.kind == "param" and o.ref == 1 and "kind_rule_mapping" in field_path(o.proj) for o in deep_roots(prog, scan, c.args[0], TRANSPARENT | {"deref"}))]
+        gets = [c for c in scan.calls if c.name == "get" and any(o.kind == "param" and o.ref == 1 and F_TABLE in field_path(o.proj) for o in deep_roots(prog, scan, c.args[0], TRANSPARENT | {"deref"}))]
         mn = [c for c in scan.calls if c.name == "match_node"]
         ok = False
         if gets and mn:
@@ -594,11 +640,11 @@ def r6(ctx):
             ok = bool(a & b)
         ctx.ob("R6", "CombinedScan::scan/lookup by the candidate's kind", ok, "kind_rule_mapping is indexed with kind_id() of the node that is then matched", where=scan.loc())
         # the rule matched is rules[idx] with idx from that table entry
-        idxs = [c for c in scan.calls if c.name == "index" and any(o.kind == "param" and o.ref == 1 and "rules" in field_path(o.proj) for o in deep_roots(prog, scan, c.args[0], TRANSPARENT | {"deref"}))]
+        idxs = [c for c in scan.calls if c.name == "index" and any(o.kind == "param" and o.ref == 1 and F_RULES in field_path(o.proj) for o in deep_roots(prog, scan, c.args[0], TRANSPARENT | {"deref"}))]
         ok2 = False
         if idxs and mn and gets:
             recv = deep_roots(prog, scan, mn[0].args[0], TRANSPARENT | {"index"})
-            ok2 = any(o.kind == "param" and o.ref == 1 and "rules" in field_path(o.proj) for o in recv)
+            ok2 = any(o.kind == "param" and o.ref == 1 and F_RULES in field_path(o.proj) for o in recv)
             iroots = deep_roots(prog, scan, idxs[0].args[1], (TRANSPARENT | {"next", "into_iter", "iter"}) - {"get"})
             ok2 = ok2 and any(o.kind == "call" and o.ref is gets[0] for o in iroots)
         ctx.ob("R6", "CombinedScan::scan/rule by table index", ok2, "the matcher run is self.rules[idx].matcher with idx read from the table entry of that kind", where=scan.loc())
@@ -725,6 +771,9 @@ def r8(ctx):
     if not ffp:
         return
     fam = prog.family(ffp)
+    from ..facts import exclusive_helpers
+    for h in exclusive_helpers(prog, ffp).values():  # e.g. the prefilter extracted into a private `may_contain_match`
+        fam += prog.family(h)
     # skip sites: str::contains whose false arm returns None (skips the file)
     sites = []
     for f in fam:
